@@ -4,12 +4,18 @@
    ReattachToPipestance.  Each mrp instance that wants to write looks for the
    _lock file and then creates it; Atomic says whether creating it fails when
    it already exists (O_EXCL, the repaired code) or overwrites it (the code as
-   found).  TLC checks that at most one instance ever believes it holds the
-   pipestance, over all orders of attach attempts and exits. *)
+   found).  Read-only instances (mrp --inspect) attach without looking at the lock
+   and may be refused (the definitions they bring mean something else) or accepted;
+   InspectorCleansUp says whether a refused one "releases" the pipestance on its way
+   out - Unlock just removes the file, whoever wrote it (a seeded change did that;
+   PsLockInspect.cfg shows TLC finding the second writer).  TLC checks that at most
+   one instance ever believes it holds the pipestance, over all orders of attach
+   attempts, inspections and exits. *)
 EXTENDS Integers, FiniteSets
 
 CONSTANTS Mrp,       \* instances
-          Atomic     \* BOOLEAN
+          Atomic,    \* BOOLEAN
+          InspectorCleansUp   \* BOOLEAN
 
 VARIABLES file,      \* the _lock file exists
           pc         \* instance -> "idle" | "checked" | "holding" | "refused"
@@ -31,7 +37,13 @@ Exit(m) == /\ pc[m] = "holding"
 Retry(m) == /\ pc[m] = "refused"
             /\ pc' = [pc EXCEPT ![m] = "idle"] /\ UNCHANGED file
 
-Next == \E m \in Mrp : Check(m) \/ Create(m) \/ Exit(m) \/ Retry(m)
+(* a read-only attach by an instance that holds nothing; refused or not, it leaves *)
+Inspect(m, refused) ==
+    /\ pc[m] = "idle"
+    /\ file' = IF refused /\ InspectorCleansUp THEN FALSE ELSE file
+    /\ UNCHANGED pc
+
+Next == \E m \in Mrp : Check(m) \/ Create(m) \/ Exit(m) \/ Retry(m) \/ \E r \in BOOLEAN : Inspect(m, r)
 Spec == Init /\ [][Next]_<<file, pc>>
 
 OneWriter == Cardinality({m \in Mrp : pc[m] = "holding"}) <= 1
